@@ -266,7 +266,7 @@ def run(ctx, replay=None, selftest=False):
         replay_der(rec, ctx, np, P)
     # B. Clenshaw derivative machine (Jacobi): laws, pinned seed variant, conformance of the documented table entries
     c, d = cl_cfg(False, ctx.tier)
-    ctx.tlc('Clenshaw', c, defs=d, name='clenshaw-laws', emit=False, require_actions=('Step',))
+    ctx.tlc('Clenshaw', c, defs=d, name='clenshaw-laws', emit=False, coverage=False)
     c, d = cl_cfg(False, 'quick', seed='j')
     ctx.tlc('Clenshaw', c, defs=d, name='clenshaw-pinned-seed', emit=False, must_hold=False, count=False)
     c, d = cl_cfg(True, ctx.tier)
